@@ -164,6 +164,7 @@ pub fn draw_plan(t: &Tape, p: &T1Profile) -> T1Plan {
     exec.link_frag_pct = if p.io_noise { *t.pick(Lane::Cfg, &[0u32, 20, 80]) } else { 0 };
     exec.clock_jump_pct = if p.clock_jumps { *t.pick(Lane::Cfg, &[0u32, 1, 10]) } else { 0 };
     exec.spurious_pct = if p.spurious { *t.pick(Lane::Cfg, &[0u32, 2, 10]) } else { 0 };
+    exec.inject_pct = if p.inject { *t.pick(Lane::Cfg, &[20u32, 5, 50, 90]) } else { 0 };
     let mut actions = Vec::new();
     if p.settings_changes {
         let k = t.draw(Lane::Work, 4);
@@ -340,6 +341,16 @@ pub struct Shared {
     pub idle_gate: Option<crate::exec::Gate>,
     /// (T2 exhaustion probe) probe readers hold what they read until this opens
     pub probe_gate: Option<crate::exec::Gate>,
+    /// (C16) a request handle kept for the capacity probe stream
+    pub probe_sr: Option<h2::client::SendRequest<Bytes>>,
+    pub cap_probe: Option<CapProbe>,
+}
+
+#[derive(Debug, Clone)]
+pub struct CapProbe {
+    pub sid: u32,
+    pub capacity: usize,
+    pub step: u64,
 }
 
 pub type SharedRef = Arc<Mutex<Shared>>;
@@ -408,6 +419,9 @@ pub async fn client_main(ctx: Ctx, io: crate::net::SimIo, plan: Arc<T1Plan>, ctl
         let mut sh = shared.lock().unwrap();
         sh.ping[0] = conn.ping_pong();
         sh.stats[0] = Some(conn.verif_stats_handle());
+    }
+    if shared.lock().unwrap().idle_gate.is_some() {
+        shared.lock().unwrap().probe_sr = Some(sr.clone());
     }
     // stream tasks
     for prog in plan.cprogs.iter() {
@@ -559,6 +573,16 @@ pub async fn server_main(ctx: Ctx, io: crate::net::SimIo, plan: Arc<T1Plan>, ctl
                         sh.accepted as usize - 1
                     };
                     let mut prog = plan2.sprogs[i % plan2.sprogs.len()].clone();
+                    if req.uri().path().starts_with("/capprobe") {
+                        // (C16 probe) a plain exchange: no pushes, no interim responses
+                        prog.pushes.clear();
+                        prog.informational.clear();
+                        prog.refuse = None;
+                        prog.drop_without_response = false;
+                        prog.read.stop_after = None;
+                        prog.body.abort = Abort::None;
+                        prog.body.wait_reset = false;
+                    }
                     if req.uri().path().starts_with("/hold") {
                         // (T2) read but never release: the stream window is never replenished
                         prog.read = ReadPlan { release: Release::Never, stop_after: None, probe_end_stream: false, skip_trailers: false };
@@ -725,12 +749,18 @@ fn side_of(name: &str) -> Option<usize> {
 pub struct T1Opts {
     pub want_sample: bool,
     pub keep_log: bool,
+    /// replace the plan's fatal fault (cut-point sweeps)
+    pub fault_override: Option<FatalFault>,
 }
 
 pub fn run_t1(profile: &T1Profile, tape: Tape, opts: &T1Opts) -> RunOut {
     h2::verif::reset_thread_state();
     h2::verif::enable_events(true);
-    let plan = Arc::new(draw_plan(&tape, profile));
+    let mut plan0 = draw_plan(&tape, profile);
+    if let Some(f) = &opts.fault_override {
+        plan0.fatal = f.clone();
+    }
+    let plan = Arc::new(plan0);
     // The two prefaces (24-byte magic + SETTINGS each way) are written before either side
     // reads; a transport that cannot hold them deadlocks any HTTP/2 implementation, so the
     // drawn (possibly tiny) buffer sizes take effect once both handshakes are done.
@@ -747,7 +777,10 @@ pub fn run_t1(profile: &T1Profile, tape: Tape, opts: &T1Opts) -> RunOut {
         shared.lock().unwrap().idle_gate = Some(idle_gate.clone());
     }
     let mut idle_checked = false;
+    let mut cap_phase = 0u8;
+    let cap_gate = crate::exec::Gate::new();
     let mut idle_violations: Vec<Violation> = Vec::new();
+    let mut cap_violations: Vec<Violation> = Vec::new();
     let mut fatal_fired = false;
     if let FatalFault::Io(side, f) = &plan.fatal {
         net.add_fault(*side, *f);
@@ -823,10 +856,26 @@ pub fn run_t1(profile: &T1Profile, tape: Tape, opts: &T1Opts) -> RunOut {
                 // phase gate: everything the programs wanted to do is done (or parked)
                 let unfinished = exec.unfinished();
                 let only_expected = unfinished.iter().all(|(n, _)| n == "c:conn" || n == "s:conn" || n == "c:main-handle");
-                if only_expected && unfinished.iter().any(|(n, _)| n == "c:main-handle") {
+                if only_expected && unfinished.iter().any(|(n, _)| n == "c:main-handle") && cap_phase == 0 {
                     idle_checked = true;
                     check_idle_state(profile, &plan, &shared, &mon, &hist, &mut idle_violations, exec.step);
+                    // C16 (iii): a fresh stream asks for everything
+                    let sr = shared.lock().unwrap().probe_sr.take();
+                    let both_alive = { let sh = shared.lock().unwrap(); !sh.conn_done[0] && !sh.conn_done[1] };
+                    if let (Some(sr), true) = (sr, both_alive && profile.cooperative) {
+                        cap_phase = 1;
+                        exec.spawn("c:capprobe", capacity_probe(ctx.clone(), sr, shared.clone(), cap_gate.clone()));
+                        continue;
+                    }
                 }
+                if cap_phase == 1 {
+                    // quiescent with the reservation outstanding: read what was assigned
+                    cap_phase = 2;
+                    check_capacity_probe(&plan, &shared, &mon, &mut idle_violations, exec.step, false);
+                    cap_gate.open();
+                    continue;
+                }
+                shared.lock().unwrap().probe_sr = None;
                 idle_gate.open();
                 continue;
             }
@@ -868,6 +917,25 @@ pub fn run_t1(profile: &T1Profile, tape: Tape, opts: &T1Opts) -> RunOut {
             for side in 0..2 {
                 if let Some(st) = &sh.stats[side] {
                     let s = st.snapshot();
+                    // C16 (ii): capacity assigned to streams is backed by the windows
+                    if cap_violations.is_empty() {
+                        let total: i64 = s.streams.iter().map(|x| (x.send_available as i64).max(0)).sum();
+                        let who = if side == 0 { "client" } else { "server" };
+                        if total + (s.conn_send_available as i64).max(0) > (s.conn_send_window as i64).max(0) && s.conn_send_window >= 0 {
+                            cap_violations.push(Violation::new("C16", "assigned-exceeds-connection-window", who, format!("{}: capacity assigned to streams {} + unassigned {} exceeds the connection send window {}", who, total, s.conn_send_available, s.conn_send_window), exec.step));
+                        }
+                        for x in &s.streams {
+                            if x.send_available > 0 && x.send_available > x.send_window.max(0) {
+                                cap_violations.push(Violation::new("C16", "assigned-exceeds-stream-window", who, format!("{}: stream {} has {} bytes of capacity assigned but its send window is {}", who, x.id, x.send_available, x.send_window), exec.step));
+                                break;
+                            }
+                        }
+                        // the endpoint's windows agree with the wire accountant when nothing is in flight
+                        let e = &mon.ep[side];
+                        if e.events.is_empty() && s.conn_send_window as i64 != e.conn_send_win && !sh.conn_done[side] && !s.has_conn_error {
+                            cap_violations.push(Violation::new("C02", "connection-send-window-disagrees-with-wire", who, format!("{}: internal connection send window {} but the wire accountant says {}", who, s.conn_send_window, e.conn_send_win), exec.step));
+                        }
+                    }
                     fnv(&mut h, &[s.num_send_streams as u8, s.num_recv_streams as u8, (s.conn_send_window > 0) as u8, (s.conn_recv_window > 0) as u8, s.has_conn_error as u8]);
                     for st in &s.streams {
                         fnv(&mut h, &[st.state, st.is_pending_send as u8, st.is_pending_open as u8, st.is_pending_send_capacity as u8, (st.send_window > 0) as u8, (st.ref_count.min(3)) as u8, st.is_pending_accept as u8]);
@@ -966,10 +1034,12 @@ pub fn run_t1(profile: &T1Profile, tape: Tape, opts: &T1Opts) -> RunOut {
                 sh.codec[0], sh.codec[1]
             )
         };
+        let only_conns = unfinished.iter().all(|(n, _)| n.ends_with(":conn"));
+        let cause = if only_conns { format!("{}:", match (leak_cause(&mon, 0), leak_cause(&mon, 1)) { ("other", b) => b, (a, _) => a }) } else { String::new() };
         violations.push(Violation::new(
             prop,
             "parked-at-quiescence",
-            kinds.join("+"),
+            format!("{}{}", cause, kinds.join("+")),
             format!("quiescent with unfinished tasks {:?};{}{}", unfinished, stats_txt, net_txt),
             step,
         ));
@@ -985,6 +1055,10 @@ pub fn run_t1(profile: &T1Profile, tape: Tape, opts: &T1Opts) -> RunOut {
     let hv = hist.with(|h| std::mem::take(&mut h.violations));
     violations.extend(hv);
     violations.extend(idle_violations);
+    violations.extend(cap_violations);
+    if shared.lock().unwrap().cap_probe.is_some() {
+        hist.probe("capacity_probe_stream_checked");
+    }
     if idle_checked {
         hist.probe("idle_state_checked");
     }
@@ -1077,6 +1151,17 @@ pub fn run_t1(profile: &T1Profile, tape: Tape, opts: &T1Opts) -> RunOut {
     }
     let streams_done = check_fidelity(&hist, &mon, clean && profile.cooperative && conn_ok, &mut violations, step);
 
+    // C20: with handle operations injected at the connection's lock / atomic yield points,
+    // every guarantee must still hold; a violation of any of them is a C20 violation too
+    if profile.inject {
+        let extra: Vec<Violation> = violations
+            .iter()
+            .filter(|v| v.prop != "C20")
+            .map(|v| Violation { prop: "C20", oracle: "guarantee-broken-under-concurrent-handle-use", disc: format!("{}/{}/{}", v.prop, v.oracle, v.disc), msg: format!("(with handle operations interleaved at the connection's yield points) {}", v.msg), step: v.step })
+            .collect();
+        violations.extend(extra);
+    }
+
     // ---------------- outputs
     let (bytes, mut faults, lock_calls) = {
         let n = net.lock();
@@ -1089,6 +1174,10 @@ pub fn run_t1(profile: &T1Profile, tape: Tape, opts: &T1Opts) -> RunOut {
     }
     if lock_calls > 0 {
         probes.insert("transport_called_with_lock_held", lock_calls);
+    }
+    if exec.yield_points > 0 {
+        probes.insert("yield_points_seen", exec.yield_points);
+        probes.insert("handle_polls_injected_at_yield_points", exec.injected);
     }
     if mon.ep[0].max_open_local > 1 {
         probes.insert("concurrent_streams_gt1", 1);
@@ -1142,6 +1231,20 @@ pub fn run_t1(profile: &T1Profile, tape: Tape, opts: &T1Opts) -> RunOut {
     }
 }
 
+/// Root-cause discriminator for leak-type findings, from the endpoint's own call-site markers.
+fn leak_cause(mon: &Monitor, side: usize) -> &'static str {
+    let has = |site: &str| {
+        mon.notes[side].iter().any(|(s, _)| *s == site) || mon.ep[side].events.iter().any(|(e, _)| matches!(e, h2::verif::Ev::Note { site: s2, .. } if *s2 == site))
+    };
+    if has("closed-counted-scheduled-reset-not-queued") {
+        "scheduled-reset-never-sent"
+    } else if has("reset-while-pending-open") {
+        "reset-while-pending-open"
+    } else {
+        "other"
+    }
+}
+
 /// C19: the run is quiescent, every stream has finished and every stream handle is gone;
 /// only the two connections and one request handle are alive.
 fn check_idle_state(profile: &T1Profile, plan: &T1Plan, shared: &SharedRef, mon: &Monitor, hist: &Hist, out: &mut Vec<Violation>, step: u64) {
@@ -1170,21 +1273,30 @@ fn check_idle_state(profile: &T1Profile, plan: &T1Plan, shared: &SharedRef, mon:
             out.push(Violation::new(
                 "C19",
                 "stream-retained-when-idle",
-                format!("{}:{}:st{}:refs{}:{}{}{}{}{}{}", if evicted { "evicted-dead-from-capacity-queue" } else { "other" }, who, x.state, x.ref_count.min(2),
+                format!("{}:{}:st{}:refs{}:{}{}{}{}{}{}", if evicted { "evicted-dead-from-capacity-queue" } else { leak_cause(mon, side) }, who, x.state, x.ref_count.min(2),
                     if x.is_pending_send { "S" } else { "" }, if x.is_pending_send_capacity { "C" } else { "" }, if x.is_pending_open { "O" } else { "" },
                     if x.is_pending_push { "P" } else { "" }, if x.is_pending_accept { "A" } else { "" }, if x.is_pending_window_update { "W" } else { "" }),
                 format!("{} still holds a record for stream {} although it is finished and all its handles are dropped: {:?}", who, x.id, x),
                 step,
             ));
         }
+        // several unexplained retained records in one run are a different thing from a single one
+        {
+            let n_other = out.iter().filter(|v| v.oracle == "stream-retained-when-idle" && v.disc.starts_with("other:") && v.disc.contains(who)).count();
+            if n_other >= 3 {
+                for v in out.iter_mut().filter(|v| v.oracle == "stream-retained-when-idle" && v.disc.starts_with("other:") && v.disc.contains(who)) {
+                    v.disc = format!("{}many", v.disc);
+                }
+            }
+        }
         if remembered > max_remembered {
             out.push(Violation::new("C19", "too-many-remembered-resets", who, format!("{} remembers {} reset streams, configured maximum {}", who, remembered, max_remembered), step));
         }
         if st.recv_buffer_slots != 0 || st.send_buffer_slots != 0 {
-            out.push(Violation::new("C19", "buffers-not-empty-when-idle", who, format!("{}: recv buffer slots {} send buffer slots {} with no stream alive", who, st.recv_buffer_slots, st.send_buffer_slots), step));
+            out.push(Violation::new("C19", "buffers-not-empty-when-idle", format!("{}:{}", leak_cause(mon, side), who), format!("{}: recv buffer slots {} send buffer slots {} with no stream alive", who, st.recv_buffer_slots, st.send_buffer_slots), step));
         }
         if st.num_send_streams != 0 || st.num_recv_streams != 0 {
-            out.push(Violation::new("C19", "concurrency-count-not-idle", who, format!("{}: num_send_streams={} num_recv_streams={} with no stream alive", who, st.num_send_streams, st.num_recv_streams), step));
+            out.push(Violation::new("C19", "concurrency-count-not-idle", format!("{}:{}", leak_cause(mon, side), who), format!("{}: num_send_streams={} num_recv_streams={} with no stream alive", who, st.num_send_streams, st.num_recv_streams), step));
         }
         if st.conn_recv_in_flight != 0 {
             out.push(Violation::new("C19", "recv-in-flight-not-idle", who, format!("{}: {} bytes of connection receive window still counted as in flight with no stream alive", who, st.conn_recv_in_flight), step));
@@ -1211,10 +1323,104 @@ fn check_idle_state(profile: &T1Profile, plan: &T1Plan, shared: &SharedRef, mon:
                 step,
             ));
         }
-        let expected_refs = if side == 0 { 2 } else { 1 };
+        let expected_refs = if side == 0 { 2 + sh.probe_sr.is_some() as usize } else { 1 };
         if st.refs != expected_refs {
             out.push(Violation::new("C19", "handle-refcount-not-idle", format!("{}:{}", who, st.refs), format!("{}: {} handle references counted, {} alive", who, st.refs, expected_refs), step));
         }
+    }
+}
+
+/// C16 (iii): opens a fresh stream, reserves 2^31-1 and reports what it is told it may send.
+async fn capacity_probe(ctx: Ctx, mut sr: h2::client::SendRequest<Bytes>, shared: SharedRef, gate: crate::exec::Gate) {
+    ctx.status.set("c:capprobe", "poll_ready");
+    if poll_fn(|cx| sr.poll_ready(cx)).await.is_err() {
+        return;
+    }
+    let req = build_request("POST", "/capprobe", &vec![], 0);
+    let head = crate::hist::fields_of_request(&req);
+    let (resp, mut ss) = match sr.send_request(req, false) {
+        Ok(x) => x,
+        Err(_) => return,
+    };
+    drop(sr);
+    let sid = resp.stream_id().as_u32();
+    ctx.hist.dir(sid, 0, |d| d.s_head = Some(head));
+    ss.reserve_capacity((1usize << 31) - 1);
+    ctx.status.set("c:capprobe", "holding reservation");
+    // wait for the driver to find the system quiescent
+    poll_fn(|cx| {
+        if gate.is_open() {
+            Poll::Ready(())
+        } else {
+            gate.register(cx.waker());
+            // keep the capacity waiter registered as an application would
+            let _ = ss.poll_capacity(cx);
+            Poll::Pending
+        }
+    })
+    .await;
+    let cap = ss.capacity();
+    let step = ctx.hist.step();
+    shared.lock().unwrap().cap_probe = Some(CapProbe { sid, capacity: cap, step });
+    ss.reserve_capacity(0);
+    ctx.hist.dir(sid, 0, |d| d.s_end = true);
+    let _ = ss.send_data(Bytes::new(), true);
+    ctx.status.set("c:capprobe", "response");
+    match resp.await {
+        Ok(r) => {
+            let f = crate::hist::fields_of_response(&r);
+            ctx.hist.dir(sid, 1, |d| {
+                d.r_head = Some(f);
+                d.r_head_count += 1;
+            });
+            let plan = ReadPlan { release: Release::Immediate, stop_after: None, probe_end_stream: false, skip_trailers: false };
+            read_body(ctx.clone(), "c:capprobe".to_string(), 0, r.into_body(), plan, 1, sid, Cancel::default()).await;
+        }
+        Err(e) => {
+            ctx.hist.error(0, sid, "response", &e);
+            ctx.hist.dir(sid, 1, |d| d.r_err = Some(e.to_string()));
+        }
+    }
+    ctx.status.set("c:capprobe", "done");
+}
+
+fn check_capacity_probe(plan: &T1Plan, shared: &SharedRef, mon: &Monitor, out: &mut Vec<Violation>, step: u64, _final: bool) {
+    // read the assignment straight from the endpoint's books (the task reports after the gate)
+    let sh = shared.lock().unwrap();
+    let st = match &sh.stats[0] {
+        Some(s) => s.snapshot(),
+        None => return,
+    };
+    let e = &mon.ep[0];
+    if !e.events.is_empty() || sh.conn_done[0] {
+        return;
+    }
+    // the probe stream is the only live, referenced stream
+    let probe = st.streams.iter().filter(|x| x.ref_count > 0 && x.state != 6).max_by_key(|x| x.id);
+    let x = match probe {
+        Some(x) => x,
+        None => return,
+    };
+    let conn = e.conn_send_win.max(0);
+    let stream_win = e.streams.get(&x.id).map(|s| s.send_win).unwrap_or(e.peer_acked.iws as i64).max(0);
+    let maxbuf = plan.ccfg.max_send_buffer_size.unwrap_or(400 << 10) as i64;
+    // a stream still waiting for a concurrency slot is assigned nothing yet
+    if x.is_pending_open {
+        return;
+    }
+    let assigned = (x.send_available as i64).max(0);
+    let expect_assigned = conn.min(stream_win);
+    if assigned != expect_assigned {
+        out.push(Violation::new(
+            "C16",
+            "probe-stream-capacity",
+            if assigned < expect_assigned { "short" } else { "excess" },
+            format!(
+                "with every other stream finished, a fresh stream reserving 2^31-1 was assigned {} bytes; the wire says connection window {} and stream window {} (max_send_buffer_size {}): capacity is stranded or over-assigned",
+                assigned, conn, stream_win, maxbuf
+            ),
+            step,
+        ));
     }
 }
 
@@ -1429,4 +1635,129 @@ fn render_sample(plan: &T1Plan, hist: &Hist, mon: &Monitor, outcome: &StepOutcom
         "last_wire_frames": wire_tail,
         "first_api_events": log,
     })
+}
+
+// --------------------------------------------------------------------------------------
+// C07 cut-point sweep (fault enumeration): one scenario, every ending at every point
+
+pub const CUT_KINDS: &[&str] = &["read-eof", "read-error", "write-error", "write-zero", "cut-both", "drop-connection", "flush-error", "shutdown-error"];
+
+fn make_cut(kind: usize, side: usize, at: u64) -> FatalFault {
+    use std::io::ErrorKind::*;
+    match kind {
+        0 => FatalFault::Io(side, IoFault::ReadEof { at }),
+        1 => FatalFault::Io(side, IoFault::ReadError { at, kind: ConnectionReset }),
+        2 => FatalFault::Io(side, IoFault::WriteError { at, kind: BrokenPipe }),
+        3 => FatalFault::Io(side, IoFault::WriteZero { at }),
+        4 => FatalFault::CutAtStep(at),
+        5 => FatalFault::DropConnAtStep(side, at),
+        6 => FatalFault::Io(side, IoFault::FlushError { call: at, kind: Other }),
+        _ => FatalFault::Io(side, IoFault::ShutdownError { kind: TimedOut }),
+    }
+}
+
+/// The Fault lane of a sweep tape: [0] = sweep everything; [k+1, side, at] = exactly one cut.
+pub fn run_t1_sweep(profile: &T1Profile, tape: Tape, want_sample: bool, quick: bool) -> RunOut {
+    // peek at the fault lane without consuming the other lanes
+    // (search tapes produce a large value here, i.e. "sweep"; a replay tape of one failing
+    // cut carries k+1 in 1..=8)
+    let sel = tape.draw(Lane::Fault, 1_000_000) as usize;
+    let sel = if sel <= CUT_KINDS.len() { sel } else { 0 };
+    if sel > 0 {
+        let side = tape.draw(Lane::Fault, 2) as usize;
+        let at = tape.draw(Lane::Fault, u32::MAX) as u64;
+        let mut out = run_t1(profile, tape.clone(), &T1Opts { want_sample, keep_log: true, fault_override: Some(make_cut(sel - 1, side, at)) });
+        for v in out.violations.iter_mut() {
+            v.msg = format!("[cut {} side {} at {}] {}", CUT_KINDS[sel - 1], side, at, v.msg);
+        }
+        out.tape = tape.recorded();
+        return out;
+    }
+    // reference run without an ending
+    let mut reference = run_t1(profile, tape.clone(), &T1Opts { want_sample, keep_log: true, fault_override: Some(FatalFault::None) });
+    let ref_tape = tape.recorded();
+    let totals = reference.bytes;
+    let steps = reference.steps;
+    let mut cuts: Vec<(usize, usize, u64)> = Vec::new();
+    let dense: u64 = if quick { 192 } else { 4096 };
+    let stride_pts: u64 = if quick { 24 } else { 256 };
+    let offsets = |total: u64| -> Vec<u64> {
+        let mut v: Vec<u64> = (0..=total.min(dense)).collect();
+        if total > dense {
+            let stride = ((total - dense) / stride_pts).max(1);
+            let mut x = dense + stride;
+            while x <= total {
+                v.push(x);
+                x += stride;
+            }
+        }
+        v
+    };
+    for side in 0..2 {
+        // reading side `side` reads the bytes the other side wrote
+        for at in offsets(totals[1 - side]) {
+            cuts.push((0, side, at));
+            cuts.push((1, side, at));
+        }
+        for at in offsets(totals[side]) {
+            cuts.push((2, side, at));
+            cuts.push((3, side, at));
+        }
+        for at in offsets(steps) {
+            cuts.push((5, side, at));
+        }
+        for at in 0..(if quick { 6 } else { 40 }) {
+            cuts.push((6, side, at));
+        }
+        cuts.push((7, side, 0));
+    }
+    for at in offsets(steps) {
+        cuts.push((4, 0, at));
+    }
+    let mut all: Vec<Violation> = std::mem::take(&mut reference.violations);
+    let mut seen: std::collections::BTreeSet<String> = all.iter().map(|v| v.signature()).collect();
+    let mut first_bad_tape: Option<crate::tape::TapeData> = None;
+    let mut faults = reference.faults.clone();
+    let mut total_steps = reference.steps;
+    let mut states: std::collections::BTreeSet<u64> = reference.states.iter().copied().collect();
+    let ncuts = cuts.len();
+    for (k, side, at) in cuts {
+        // same tape, fault lane selects this one cut
+        let mut td = ref_tape.clone();
+        td.lanes[Lane::Fault as usize] = vec![(k + 1) as u32, side as u32, at as u32];
+        let sub = Tape::replay(td.clone());
+        let sel2 = sub.draw(Lane::Fault, 1_000_000) as usize;
+        let side2 = sub.draw(Lane::Fault, 2) as usize;
+        let at2 = sub.draw(Lane::Fault, u32::MAX) as u64;
+        debug_assert_eq!((sel2, side2, at2), (k + 1, side, at));
+        let out = run_t1(profile, sub, &T1Opts { want_sample: false, keep_log: false, fault_override: Some(make_cut(k, side, at)) });
+        faults.merge(&out.faults);
+        total_steps += out.steps;
+        for s in &out.states {
+            states.insert(*s);
+        }
+        for mut v in out.violations {
+            if seen.insert(v.signature()) {
+                v.msg = format!("[cut {} side {} at {}] {}", CUT_KINDS[k], side, at, v.msg);
+                if first_bad_tape.is_none() && v.prop == "C07" {
+                    first_bad_tape = Some(td.clone());
+                }
+                all.push(v);
+            }
+        }
+    }
+    reference.violations = all;
+    reference.faults = faults;
+    reference.steps = total_steps;
+    reference.states = states.into_iter().collect();
+    reference.probes.insert("cut_points_swept", ncuts as u64);
+    // a violation is replayed with the tape of the first failing cut
+    reference.tape = first_bad_tape.unwrap_or(ref_tape);
+    if let Some(s) = reference.sample.as_mut() {
+        s["cut_points_swept"] = serde_json::json!(ncuts);
+        s["cut_kinds"] = serde_json::json!(CUT_KINDS);
+        s["reference_bytes"] = serde_json::json!(totals);
+        s["reference_steps"] = serde_json::json!(steps);
+    }
+    reference
 }
